@@ -8,6 +8,7 @@ import (
 	"io"
 	"os"
 	"os/exec"
+	"sort"
 	"strconv"
 	"strings"
 	"time"
@@ -184,6 +185,10 @@ type Solver struct {
 	nslow  int
 	TimeMS int
 	dead   bool
+	// folded regular-expression memberships (see DefineMemb)
+	membAtoms map[string]membAtom
+	memb      map[string][]string
+	relaxed   bool
 }
 
 func solverArgv(kind string, timeoutMS int) []string {
@@ -234,13 +239,145 @@ func (s *Solver) raw(line string) {
 
 // Send adds a declaration/definition/assertion to the current scope.
 func (s *Solver) Send(line string) {
+	if strings.HasPrefix(line, "(assert ") && len(s.membAtoms) > 0 {
+		if v, re, ok := s.membLit(line[len("(assert ") : len(line)-1]); ok {
+			s.memb[v] = append(s.memb[v], re)
+			return
+		}
+	}
 	s.script = append(s.script, line)
 	s.raw(line)
+}
+
+// ---------------------------------------------------------------------------------------------
+// Regular-expression memberships of one string variable are kept out of the assertion stack and
+// handed to the solver as ONE membership in the intersection (negated ones as complements, the
+// declared maximal length as a bounded loop) with every query: z3's derivative-based regex
+// solver decides that in well under a second where the same constraints as separate (negated)
+// memberships plus an arithmetic length bound run for minutes. Same models, same verdicts.
+
+type membAtom struct{ v, re string }
+
+// DefineMemb names the atom (str.in_re v re); asserting the name or its negation is folded.
+func (s *Solver) DefineMemb(v, re string) string {
+	if s.membAtoms == nil {
+		s.membAtoms = map[string]membAtom{}
+		s.memb = map[string][]string{}
+	}
+	for n, a := range s.membAtoms {
+		if a.v == v && a.re == re {
+			return n
+		}
+	}
+	s.nname++
+	name := fmt.Sprintf("m!%d", s.nname)
+	s.Send("(define-fun " + name + " () Bool (str.in_re " + v + " " + re + "))")
+	s.membAtoms[name] = membAtom{v, re}
+	return name
+}
+
+// SetMaxLen bounds the length of string variable v (folded like a membership).
+func (s *Solver) SetMaxLen(v string, n int) {
+	if s.membAtoms == nil {
+		s.membAtoms = map[string]membAtom{}
+		s.memb = map[string][]string{}
+	}
+	s.memb[v] = append(s.memb[v], fmt.Sprintf("((_ re.loop 0 %d) re.allchar)", n))
+}
+
+// HasNegMemb reports whether negative memberships have been folded on this path.
+func (s *Solver) HasNegMemb() bool {
+	for _, rs := range s.memb {
+		for _, r := range rs {
+			if strings.HasPrefix(r, "(re.comp ") {
+				return true
+			}
+		}
+	}
+	return false
+}
+
+// RefutedRelaxed reports whether extra is unsatisfiable already without the negative memberships
+// accumulated on the path (then it is unsatisfiable with them). false = no information.
+func (s *Solver) RefutedRelaxed(extra string) bool {
+	s.relaxed = true
+	r := s.Check(extra)
+	s.relaxed = false
+	if r != "unsat" { // not a verdict about the path: undo the statistics
+		switch r {
+		case "sat":
+			s.Stats.Sat--
+		default:
+			s.Stats.Unknown--
+		}
+	}
+	return r == "unsat"
+}
+
+// membLit recognises NAME / (not NAME) for a named membership atom.
+func (s *Solver) membLit(t string) (v, re string, ok bool) {
+	if a, ok := s.membAtoms[t]; ok {
+		return a.v, a.re, true
+	}
+	if strings.HasPrefix(t, "(not ") {
+		if a, ok := s.membAtoms[t[5:len(t)-1]]; ok {
+			return a.v, "(re.comp " + a.re + ")", true
+		}
+	}
+	return "", "", false
+}
+
+// scopeAsserts returns the assertions to add (inside a push) for one query: the folded
+// memberships and the extra condition (folded too when it is a membership literal).
+func (s *Solver) scopeAsserts(extra string) []string {
+	var out []string
+	relaxed := s.relaxed
+	var ev, ere string
+	folded := false
+	if extra != "" && len(s.membAtoms) > 0 {
+		ev, ere, folded = s.membLit(extra)
+	}
+	vars := make([]string, 0, len(s.memb))
+	for v := range s.memb {
+		vars = append(vars, v)
+	}
+	if folded {
+		if _, ok := s.memb[ev]; !ok {
+			vars = append(vars, ev)
+		}
+	}
+	sort.Strings(vars)
+	for _, v := range vars {
+		res := s.memb[v]
+		if relaxed {
+			// drop the accumulated negative memberships (sound for an "unsat" answer only)
+			var pos []string
+			for _, r := range res {
+				if !strings.HasPrefix(r, "(re.comp ") {
+					pos = append(pos, r)
+				}
+			}
+			res = pos
+		}
+		if folded && v == ev {
+			res = append(append([]string{}, res...), ere)
+		}
+		if len(res) == 1 {
+			out = append(out, "(assert (str.in_re "+v+" "+res[0]+"))")
+		} else if len(res) > 1 {
+			out = append(out, "(assert (str.in_re "+v+" (re.inter "+strings.Join(res, " ")+")))")
+		}
+	}
+	if extra != "" && !folded {
+		out = append(out, "(assert "+extra+")")
+	}
+	return out
 }
 
 // Reset clears all declarations and assertions (start of a new path).
 func (s *Solver) Reset() {
 	s.script = s.script[:0]
+	s.membAtoms, s.memb = nil, nil
 	s.nname = 0
 	s.Stats.Resets++
 	s.raw("(reset)")
@@ -284,9 +421,11 @@ func (s *Solver) roundTrip(cmd string) []string {
 func (s *Solver) Check(extra string) string {
 	t0 := time.Now()
 	var lines []string
-	if extra != "" {
+	if as := s.scopeAsserts(extra); len(as) > 0 {
 		s.raw("(push 1)")
-		s.raw("(assert " + extra + ")")
+		for _, a := range as {
+			s.raw(a)
+		}
 		lines = s.roundTrip("(check-sat)")
 		s.raw("(pop 1)")
 	} else {
@@ -322,13 +461,49 @@ func (s *Solver) Check(extra string) string {
 	return res
 }
 
+// QuickCheck is Check(extra) under a short time limit (z3 only; other solvers answer "unknown"
+// at once). "sat"/"unsat" are as definitive as from Check; "unknown" only means: ask again in full.
+func (s *Solver) QuickCheck(extra string, ms int) string {
+	if !strings.HasPrefix(s.Kind, "z3") || s.dead {
+		return "unknown"
+	}
+	t0 := time.Now()
+	s.raw(fmt.Sprintf("(set-option :timeout %d)", ms))
+	s.raw("(push 1)")
+	for _, a := range s.scopeAsserts(extra) {
+		s.raw(a)
+	}
+	lines := s.roundTrip("(check-sat)")
+	s.raw("(pop 1)")
+	s.raw(fmt.Sprintf("(set-option :timeout %d)", s.TimeMS))
+	s.Stats.Seconds += time.Since(t0).Seconds()
+	res := "unknown"
+	for _, l := range lines {
+		switch {
+		case strings.HasPrefix(l, "(error"):
+			return "unknown"
+		case l == "sat" || l == "unsat":
+			res = l
+		}
+	}
+	switch res {
+	case "sat":
+		s.Stats.Sat++
+	case "unsat":
+		s.Stats.Unsat++
+	}
+	return res
+}
+
 // CheckModel is Check(extra) that, on sat, also returns the values of names.
 func (s *Solver) CheckModel(extra string, names []string) (string, map[string]string) {
 	t0 := time.Now()
 	defer func() { s.Stats.Seconds += time.Since(t0).Seconds() }()
-	if extra != "" {
+	if as := s.scopeAsserts(extra); len(as) > 0 {
 		s.raw("(push 1)")
-		s.raw("(assert " + extra + ")")
+		for _, a := range as {
+			s.raw(a)
+		}
 		defer s.raw("(pop 1)")
 	}
 	lines := s.roundTrip("(check-sat)")
@@ -374,8 +549,8 @@ func (s *Solver) Script(extra string) string {
 		b.WriteString(l)
 		b.WriteByte('\n')
 	}
-	if extra != "" {
-		b.WriteString("(assert " + extra + ")\n")
+	for _, a := range s.scopeAsserts(extra) {
+		b.WriteString(a + "\n")
 	}
 	b.WriteString("(check-sat)\n")
 	return b.String()
